@@ -2557,37 +2557,209 @@ theorem creach_bound (cap : Int) (s t : CState) (h : CReach cap s t) (h0 : s.cou
 
 /-! ### LimiterStore -/
 
-theorem lim_get_spec (s : Lim) (k : Nat) (victim : Option Nat)
-    (hb : s.keys.length ≤ max s.maxSize 1)
-    (hv : s.maxSize ≤ s.keys.length → s.keys ≠ [] → ∃ w, victim = some w ∧ w ∈ s.keys) :
-    (s.get k victim).keys.length ≤ max s.maxSize 1 ∧ k ∈ (s.get k victim).keys ∧
-    (s.get k victim).maxSize = s.maxSize ∧
-    (∀ k', k' ∈ s.keys → k' ∈ (s.get k victim).keys ∨ (some k' = victim ∧ k' ≠ k)) := by
+/-- invariant of the limiter store between calls -/
+structure LimInv (s : Lim) : Prop where
+  nodup : s.keys.Nodup
+  bound : s.ents.length ≤ max s.maxSize 1
+
+theorem oldest_none {l : List (Nat × Nat)} : Lim.oldest l = none ↔ l = [] := by
+  cases l with
+  | nil => simp [Lim.oldest]
+  | cons e t =>
+    simp only [Lim.oldest]
+    cases Lim.oldest t with
+    | none => simp
+    | some o => simp only; split <;> simp
+
+theorem oldest_spec {l : List (Nat × Nat)} {o : Nat × Nat} (h : Lim.oldest l = some o) :
+    o ∈ l ∧ ∀ e ∈ l, o.2 ≤ e.2 := by
+  induction l generalizing o with
+  | nil => simp [Lim.oldest] at h
+  | cons e t ih =>
+    simp only [Lim.oldest] at h
+    cases ht : Lim.oldest t with
+    | none =>
+      rw [ht] at h
+      simp only [Option.some.injEq] at h
+      subst h
+      have : t = [] := oldest_none.mp ht
+      subst this
+      simp
+    | some o' =>
+      rw [ht] at h
+      obtain ⟨hm, hmin⟩ := ih ht
+      simp only at h
+      split at h
+      · rename_i hlt
+        simp only [Option.some.injEq] at h
+        subst h
+        refine ⟨List.mem_cons_of_mem _ hm, ?_⟩
+        intro x hx
+        rcases List.mem_cons.mp hx with rfl | hx
+        · omega
+        · exact hmin x hx
+      · rename_i hge
+        simp only [Option.some.injEq] at h
+        subst h
+        refine ⟨List.mem_cons_self .., ?_⟩
+        intro x hx
+        rcases List.mem_cons.mp hx with rfl | hx
+        · omega
+        · have := hmin x hx; omega
+
+theorem filter_ne_length (l : List (Nat × Nat)) (w : Nat) (hn : (l.map (·.1)).Nodup) (hw : w ∈ l.map (·.1)) :
+    (l.filter (fun e => e.1 != w)).length + 1 = l.length := by
+  induction l with
+  | nil => simp at hw
+  | cons e t ih =>
+    simp only [List.map_cons, List.nodup_cons] at hn
+    by_cases he : e.1 = w
+    · have hnot : w ∉ t.map (·.1) := by rw [← he]; exact hn.1
+      have hall : t.filter (fun e => e.1 != w) = t := by
+        rw [List.filter_eq_self]
+        intro x hx
+        simp only [bne_iff_ne, ne_eq]
+        intro hxw
+        exact hnot (List.mem_map.mpr ⟨x, hx, hxw⟩)
+      simp [List.filter_cons, he, hall]
+    · have hw' : w ∈ t.map (·.1) := by
+        simp only [List.map_cons, List.mem_cons] at hw
+        rcases hw with h | h
+        · exact absurd h.symm he
+        · exact h
+      have := ih hn.2 hw'
+      simp [List.filter_cons, he]
+      omega
+
+theorem keys_remove (s : Lim) (w : Nat) : (s.remove w).keys = s.keys.filter (fun k => k != w) := by
+  unfold Lim.remove Lim.keys
+  simp only
+  induction s.ents with
+  | nil => rfl
+  | cons e t ih =>
+    simp only [List.filter_cons, List.map_cons]
+    split <;> simp [ih]
+
+/-- `evictOne` on a non-empty store removes exactly one stored entry: the least
+recently seen one up to 1000 entries, the iteration's first key above. -/
+theorem evictOne_spec (s : Lim) (first : Option Nat) (hn : s.keys.Nodup) (hne : s.ents ≠ [])
+    (hfirst : 1000 < s.ents.length → ∃ w, first = some w ∧ w ∈ s.keys) :
+    ∃ w, w ∈ s.keys ∧ s.evictOne first = s.remove w ∧ (s.evictOne first).ents.length + 1 = s.ents.length ∧
+      (s.ents.length ≤ 1000 → ∃ t, (w, t) ∈ s.ents ∧ ∀ e ∈ s.ents, t ≤ e.2) := by
+  unfold Lim.evictOne
+  by_cases hbig : s.ents.length > 1000
+  · rw [if_pos hbig]
+    obtain ⟨w, hw, hmem⟩ := hfirst hbig
+    rw [hw]
+    refine ⟨w, hmem, rfl, filter_ne_length s.ents w hn hmem, fun h => by omega⟩
+  · rw [if_neg hbig]
+    cases ho : Lim.oldest s.ents with
+    | none => exact absurd (oldest_none.mp ho) hne
+    | some o =>
+      obtain ⟨hm, hmin⟩ := oldest_spec ho
+      have hk : o.1 ∈ s.keys := List.mem_map.mpr ⟨o, hm, rfl⟩
+      exact ⟨o.1, hk, rfl, filter_ne_length s.ents o.1 hn hk, fun _ => ⟨o.2, hm, hmin⟩⟩
+
+/-- **`LimiterStore.Get`** keeps the store duplicate-free and within
+`max maxSize 1`, stores the requested key, never evicts it, and evicts at most
+one other key. -/
+theorem lim_get_spec (s : Lim) (k now : Nat) (first : Option Nat) (inv : LimInv s)
+    (hfirst : 1000 < s.ents.length → ∃ w, first = some w ∧ w ∈ s.keys) :
+    LimInv (s.get k now first) ∧ (k, now) ∈ (s.get k now first).ents ∧
+    (s.get k now first).maxSize = s.maxSize ∧
+    ∃ victim : Option Nat, victim ≠ some k ∧
+      ∀ k', k' ∈ s.keys → k' ∈ (s.get k now first).keys ∨ victim = some k' := by
   unfold Lim.get
   by_cases hk : k ∈ s.keys
-  · rw [if_pos hk]; exact ⟨hb, hk, rfl, fun k' h => Or.inl h⟩
+  · rw [if_pos hk]
+    have hkeys : (s.ents.map (fun e => if e.1 = k then (k, now) else e)).map (·.1) = s.ents.map (·.1) := by
+      rw [List.map_map]
+      apply List.map_congr_left
+      intro e _
+      simp only [Function.comp]
+      split
+      · rename_i h; exact h.symm
+      · rfl
+    have hkeys' : Lim.keys { s with ents := s.ents.map (fun e => if e.1 = k then (k, now) else e) } = s.keys := hkeys
+    refine ⟨⟨?_, ?_⟩, ?_, rfl, none, by simp, ?_⟩
+    · rw [hkeys']; exact inv.nodup
+    · show (s.ents.map (fun e => if e.1 = k then (k, now) else e)).length ≤ _
+      rw [List.length_map]; exact inv.bound
+    · obtain ⟨e, he, hek⟩ := List.mem_map.mp hk
+      exact List.mem_map.mpr ⟨e, he, by rw [if_pos hek]⟩
+    · intro k' hk'
+      left
+      rw [hkeys']; exact hk'
   · rw [if_neg hk]
     simp only
-    by_cases hfull : s.keys.length ≥ s.maxSize
+    by_cases hfull : s.ents.length ≥ s.maxSize
     · rw [if_pos hfull]
-      by_cases hnil : s.keys = []
-      · rw [hnil]
-        refine ⟨?_, by simp, trivial, by simp⟩
-        cases victim <;> simp <;> omega
-      · obtain ⟨w, hw, hmem⟩ := hv hfull hnil
-        rw [hw]
-        simp only
-        refine ⟨?_, by simp, trivial, ?_⟩
-        · rw [List.length_cons, List.length_erase_of_mem hmem]
-          have : 0 < s.keys.length := List.length_pos_of_mem hmem
+      by_cases hnil : s.ents = []
+      · -- nothing to evict (maxSize 0): the store grows to one entry
+        have he : s.evictOne first = s := by
+          unfold Lim.evictOne Lim.remove
+          rw [hnil]; simp [Lim.oldest]
+        rw [he]
+        refine ⟨⟨?_, ?_⟩, by simp, rfl, none, by simp, ?_⟩
+        · show (List.map (fun e : Nat × Nat => e.1) ((k, now) :: s.ents)).Nodup; rw [hnil]; simp
+        · show ((k, now) :: s.ents).length ≤ _; rw [hnil]; simp; omega
+        · intro k' hk'; unfold Lim.keys at hk'; rw [hnil] at hk'; simp at hk'
+      · obtain ⟨w, hw, heq, hlen, _⟩ := evictOne_spec s first inv.nodup hnil hfirst
+        have hwk : w ≠ k := by intro h; rw [h] at hw; exact hk hw
+        rw [heq]
+        have hkeys := keys_remove s w
+        refine ⟨⟨?_, ?_⟩, by simp, rfl, some w, by simpa using hwk, ?_⟩
+        · show (List.map (fun e : Nat × Nat => e.1) ((k, now) :: (s.remove w).ents)).Nodup
+          rw [List.map_cons, List.nodup_cons]
+          refine ⟨?_, ?_⟩
+          · intro hin
+            have : k ∈ (s.remove w).keys := hin
+            rw [hkeys] at this
+            exact hk (List.mem_filter.mp this).1
+          · show (s.remove w).keys.Nodup
+            rw [hkeys]; exact inv.nodup.sublist List.filter_sublist
+        · show ((k, now) :: (s.remove w).ents).length ≤ _
+          rw [heq] at hlen
+          have := inv.bound
+          simp only [List.length_cons]
+          show _ ≤ max s.maxSize 1
           omega
         · intro k' hk'
           by_cases hkw : k' = w
-          · right; exact ⟨by rw [hkw], by intro h; rw [h] at hk'; exact hk hk'⟩
-          · left; exact List.mem_cons_of_mem _ ((List.mem_erase_of_ne hkw).mpr hk')
+          · right; rw [hkw]
+          · left
+            show k' ∈ List.map (fun e : Nat × Nat => e.1) ((k, now) :: (s.remove w).ents)
+            rw [List.map_cons]
+            apply List.mem_cons_of_mem
+            show k' ∈ (s.remove w).keys
+            rw [hkeys]
+            exact List.mem_filter.mpr ⟨hk', by simpa using hkw⟩
     · rw [if_neg hfull]
-      refine ⟨?_, by simp, trivial, fun k' h => Or.inl (List.mem_cons_of_mem _ h)⟩
-      rw [List.length_cons]; omega
+      refine ⟨⟨?_, ?_⟩, by simp, rfl, none, by simp, ?_⟩
+      · show (List.map (fun e : Nat × Nat => e.1) ((k, now) :: s.ents)).Nodup
+        rw [List.map_cons, List.nodup_cons]
+        exact ⟨hk, inv.nodup⟩
+      · show ((k, now) :: s.ents).length ≤ _
+        simp only [List.length_cons]; omega
+      · intro k' hk'; left
+        show k' ∈ List.map (fun e : Nat × Nat => e.1) ((k, now) :: s.ents)
+        rw [List.map_cons]; exact List.mem_cons_of_mem _ hk'
+
+/-- `Cleanup` keeps exactly the entries seen at or after the cutoff. -/
+theorem lim_cleanup_spec (s : Lim) (cutoff : Nat) (inv : LimInv s) :
+    LimInv (s.cleanup cutoff) ∧ ∀ e, e ∈ (s.cleanup cutoff).ents ↔ e ∈ s.ents ∧ cutoff ≤ e.2 := by
+  refine ⟨⟨?_, ?_⟩, ?_⟩
+  · show (List.map (fun e : Nat × Nat => e.1) (s.ents.filter _)).Nodup
+    exact inv.nodup.sublist (List.filter_sublist.map _)
+  · show (s.ents.filter _).length ≤ _
+    have := List.length_filter_le (fun e : Nat × Nat => !(decide (e.2 < cutoff))) s.ents
+    have := inv.bound
+    show _ ≤ max s.maxSize 1
+    omega
+  · intro e
+    show e ∈ s.ents.filter _ ↔ _
+    rw [List.mem_filter]
+    simp
 
 /-! ### lock footprint of SetWithCap -/
 
@@ -2680,6 +2852,408 @@ theorem lockTrace_local {H : Hashes} (hH : HashOk H) {m : SegMap V} (inv : SegIn
   · split
     · rw [if_pos (by omega)]
     · rfl
+
+
+/-! ### iteration -/
+
+/-- iteration yields exactly the pairs of the abstract map -/
+theorem mem_umap_toList_iff {idx : Nat → Nat → Nat} {s : UMap V} (inv : Inv idx s) (k : Nat) (v : V) :
+    (k, v) ∈ s.toList ↔ abs s k = some v := by
+  unfold UMap.toList abs
+  rw [List.mem_append, List.mem_filter]
+  by_cases hk : k = 0
+  · subst hk
+    rw [if_pos rfl]
+    cases s.zero with
+    | none => simp
+    | some z =>
+      simp only [List.mem_singleton, Prod.mk.injEq, true_and, ne_eq, not_true_eq_false, decide_false,
+        Bool.false_eq_true, and_false, or_false, Option.some.injEq]
+      exact eq_comm
+  · rw [if_neg hk]
+    have h2 : ((k, v) ∈ s.data.toList ∧ decide ((k, v).1 ≠ 0) = true) ↔ lookup s.data k = some v := by
+      rw [mem_toList_iff s.data k v, has_iff_lookup inv.slots k hk]
+      simp [hk]
+    rw [h2]
+    cases s.zero with
+    | none => simp
+    | some z =>
+      simp only [List.mem_singleton, Prod.mk.injEq]
+      constructor
+      · rintro (h | h)
+        · exact absurd h.1 hk
+        · exact h
+      · exact Or.inr
+
+/-- **Iteration under concurrent writers.** Whatever writers do between the
+moments the segments are read-locked (`ms i` = the table when segment `i` is
+read), the sweep delivers every pair that is stored when its home segment is
+read — in particular every entry that stays untouched during the sweep — and
+delivers nothing that was not stored at that moment. -/
+theorem sweep_spec {H : Hashes} (hH : HashOk H) (n : Nat) (ms : Nat → SegMap V)
+    (hinv : ∀ i, i < n → SegInv H (ms i) ∧ (ms i).segs.size = n) (k : Nat) (v : V) :
+    (k, v) ∈ SegMap.sweep n ms ↔ (0 < n ∧ sabs H (ms (H.seg n k)) k = some v) := by
+  unfold SegMap.sweep
+  rw [List.mem_flatMap]
+  constructor
+  · rintro ⟨i, hi, hmem⟩
+    have hin : i < n := List.mem_range.mp hi
+    obtain ⟨inv, hsz⟩ := hinv i hin
+    have hseg := inv.segs i (by rw [hsz]; exact hin)
+    have habs := (mem_umap_toList_iff hseg k v).mp hmem
+    have hhome : H.seg n k = i := by
+      have := inv.home i (by rw [hsz]; exact hin) k (by rw [habs]; simp)
+      rw [hsz] at this; exact this
+    refine ⟨by omega, ?_⟩
+    rw [hhome]
+    unfold sabs SegMap.segOf
+    rw [hsz, hhome]; exact habs
+  · rintro ⟨hn, habs⟩
+    have hlt := hH.seg n k hn
+    obtain ⟨inv, hsz⟩ := hinv _ hlt
+    refine ⟨H.seg n k, List.mem_range.mpr hlt, ?_⟩
+    have hseg := inv.segs _ (by rw [hsz]; exact hlt)
+    rw [mem_umap_toList_iff hseg]
+    unfold sabs SegMap.segOf at habs
+    rw [hsz] at habs; exact habs
+
+theorem flatMap_range_getD (l : List (UMap V)) :
+    (List.range l.length).flatMap (fun i => (l[i]?.getD default).toList) = l.flatMap UMap.toList := by
+  induction l with
+  | nil => rfl
+  | cons x t ih =>
+    rw [List.length_cons, List.range_succ_eq_map, List.flatMap_cons, List.flatMap_map, List.flatMap_cons]
+    simp only [List.getElem?_cons_zero, Option.getD_some, Function.comp, List.getElem?_cons_succ]
+    rw [ih]
+
+/-- a quiescent sweep is `toList` -/
+theorem sweep_const (m : SegMap V) : SegMap.sweep m.segs.size (fun _ => m) = m.toList := by
+  unfold SegMap.sweep SegMap.toList
+  have hf : (fun i => (m.segAt i).toList) = fun i => (m.segs.toList[i]?.getD default).toList := by
+    funext i
+    simp [SegMap.segAt, Array.getD_eq_getD_getElem?]
+  rw [hf, ← flatMap_range_getD m.segs.toList, Array.length_toList]
+
+/-! ### remaining operations of the segmented table -/
+
+/-- **`PutIfNotExists`** on the segmented table -/
+theorem seg_pine_spec {H : Hashes} (hH : HashOk H) {m : SegMap V} (inv : SegInv H m) (k : Nat) (v : V) :
+    SegInv H (m.putIfNotExists H k v).1 ∧
+    (∀ k', sabs H (m.putIfNotExists H k v).1 k' = if k' = k then some ((sabs H m k).getD v) else sabs H m k') ∧
+    (m.putIfNotExists H k v).2.1 = (sabs H m k).getD v ∧ (m.putIfNotExists H k v).2.2 = (sabs H m k).isNone ∧
+    (m.putIfNotExists H k v).1.count = m.count + (if (sabs H m k).isSome then 0 else 1) := by
+  have hi := segOf_lt hH inv k
+  obtain ⟨p1, p2, p3, p4, p5⟩ := putIfNotExists_spec hH.idx (inv.segs _ hi) k v
+  have hcount : (m.putIfNotExists H k v).1.count = m.count + (if (sabs H m k).isSome then 0 else 1) := by
+    show (if ((m.segAt (SegMap.segOf H m k)).putIfNotExists H.idx k v).2.2 then m.count + 1 else m.count) = _
+    unfold sabs
+    rw [p4]
+    cases abs (m.segAt (SegMap.segOf H m k)) k <;> simp
+  refine ⟨?_, ?_, p3, p4, hcount⟩
+  · apply seginv_set inv _ hi _ _ p1
+    · intro k' hk'
+      rw [p2 k'] at hk'
+      by_cases h : k' = k
+      · rw [h]; rfl
+      · rw [if_neg h] at hk'; exact inv.home _ hi k' hk'
+    · refine hcount.trans ?_
+      unfold sabs
+      rw [p5]
+      split <;> omega
+  · intro k'
+    show sabs H { segs := m.segs.setIfInBounds (SegMap.segOf H m k) _, count := _ } k' = _
+    rw [sabs_set m _ hi]
+    by_cases hk' : k' = k
+    · rw [if_pos hk', hk', if_pos rfl, p2 k, if_pos rfl]; rfl
+    · rw [if_neg hk']
+      split
+      · rename_i h
+        rw [p2 k', if_neg hk']
+        unfold sabs; rw [h]
+      · rfl
+
+/-- **`ClearSegment`**: the segment is emptied, its entries are uncounted, all others untouched -/
+theorem seg_clearSegment_spec {H : Hashes} (hH : HashOk H) {m : SegMap V} (inv : SegInv H m) (i : Nat) :
+    SegInv H (m.clearSegment i) ∧
+    (∀ k, sabs H (m.clearSegment i) k = if SegMap.segOf H m k = i ∧ i < m.segs.size then none else sabs H m k) ∧
+    (m.clearSegment i).count = m.count - (if i < m.segs.size then ((m.segAt i).size : Int) else 0) := by
+  unfold SegMap.clearSegment
+  by_cases hi : i < m.segs.size
+  · rw [if_pos hi]
+    obtain ⟨c1, c2, c3⟩ := clear_spec (inv.segs i hi)
+    refine ⟨?_, ?_, by simp [hi, UMap.len]⟩
+    · apply seginv_set inv i hi _ _ c1
+      · intro k hk; rw [c2 k] at hk; exact absurd rfl hk
+      · rw [c3]; simp [UMap.len]
+    · intro k
+      rw [sabs_set m i hi]
+      by_cases h : SegMap.segOf H m k = i
+      · rw [if_pos h, if_pos ⟨h, hi⟩, c2 k]
+      · rw [if_neg h, if_neg (by intro h'; exact h h'.1)]
+  · rw [if_neg hi]
+    refine ⟨inv, ?_, by simp [hi]⟩
+    intro k
+    rw [if_neg (by intro h; exact hi h.2)]
+
+
+/-! ### interleavings of lock-atomic sections -/
+
+/-- what a thread may do to ONE segment's table while it holds that segment's write lock -/
+inductive SegOp (V : Type) where
+  | put (k : Nat) (v : V)
+  | pine (k : Nat) (v : V)
+  | del (k : Nat)
+  | evict (offset n skip : Nat)
+  | clear
+
+def SegOp.apply (H : Hashes) (s : UMap V) : SegOp V → UMap V
+  | .put k v => s.put H.idx k v
+  | .pine k v => (s.putIfNotExists H.idx k v).1
+  | .del k => (s.del H.idx k).1
+  | .evict o n sk => (s.evictKeysAt H.idx o n sk).1
+  | .clear => s.clear
+
+/-- a key is only ever written to its home segment (`getSegment(key)`) -/
+def SegOp.home (H : Hashes) (nseg i : Nat) : SegOp V → Prop
+  | .put k _ => H.seg nseg k = i
+  | .pine k _ => H.seg nseg k = i
+  | _ => True
+
+theorem segop_spec {H : Hashes} (hH : HashOk H) {s : UMap V} (inv : Inv H.idx s) (op : SegOp V) :
+    Inv H.idx (op.apply H s) ∧
+    ∀ k, abs (op.apply H s) k ≠ none → abs s k ≠ none ∨ (match op with | .put k' _ => k = k' | .pine k' _ => k = k' | _ => False) := by
+  cases op with
+  | put k' v =>
+    obtain ⟨h1, h2, _⟩ := put_spec hH.idx inv k' v
+    refine ⟨h1, ?_⟩
+    intro k hk
+    have hk : abs (s.put H.idx k' v) k ≠ none := hk
+    rw [h2 k] at hk
+    by_cases h : k = k'
+    · right; exact h
+    · rw [if_neg h] at hk; left; exact hk
+  | pine k' v =>
+    obtain ⟨h1, h2, _⟩ := putIfNotExists_spec hH.idx inv k' v
+    refine ⟨h1, ?_⟩
+    intro k hk
+    have hk : abs (s.putIfNotExists H.idx k' v).1 k ≠ none := hk
+    rw [h2 k] at hk
+    by_cases h : k = k'
+    · right; exact h
+    · rw [if_neg h] at hk; left; exact hk
+  | del k' =>
+    obtain ⟨h1, h2, _⟩ := del_spec hH.idx inv k'
+    refine ⟨h1, ?_⟩
+    intro k hk
+    have hk : abs (s.del H.idx k').1 k ≠ none := hk
+    rw [h2 k] at hk
+    left
+    by_cases h : k = k'
+    · rw [if_pos h] at hk; exact absurd rfl hk
+    · rw [if_neg h] at hk; exact hk
+  | evict o n sk =>
+    obtain ⟨h1, _, _, _, h5⟩ := evict_spec hH.idx inv o n sk
+    refine ⟨h1, ?_⟩
+    intro k hk
+    left
+    rcases h5 k with h | h
+    · rw [← h]; exact hk
+    · exact absurd h.1 hk
+  | clear =>
+    obtain ⟨h1, h2, _⟩ := clear_spec inv
+    exact ⟨h1, fun k hk => absurd (h2 k) hk⟩
+
+/-- the shared table, and per thread the amount by which the atomic counter is
+still ahead of the table because of it (entries it removed under a lock and
+has not yet subtracted) -/
+structure CSt (V : Type) where
+  m : SegMap V
+  pend : List Int
+
+/-- one lock-atomic section or one atomic counter update of some thread.
+`secAdd`: a section that also adjusts the counter by exactly its size change
+(Set, PutIfNotExists, Del, CompareAndDelete, CompareAndSwap, the own-segment
+part of SetWithCap).  `secDefer`: a section whose counter update comes after
+the unlock (the spill evictions of SetWithCap, ClearSegment).  `flush`: that
+later `count.Add`.  Which operation, which quota, whether a writer thinks the
+table is over capacity — all free: every schedule of the real code maps to a
+sequence of these steps. -/
+inductive IStep (H : Hashes) : CSt V → CSt V → Prop
+  | secAdd (st : CSt V) (i : Nat) (op : SegOp V) : i < st.m.segs.size → op.home H st.m.segs.size i →
+      IStep H st
+        { m := { segs := st.m.segs.setIfInBounds i (op.apply H (st.m.segAt i)),
+                 count := st.m.count + (((op.apply H (st.m.segAt i)).size : Int) - ((st.m.segAt i).size : Int)) },
+          pend := st.pend }
+  | secDefer (st : CSt V) (t i : Nat) (op : SegOp V) : i < st.m.segs.size → op.home H st.m.segs.size i →
+      t < st.pend.length →
+      IStep H st
+        { m := { segs := st.m.segs.setIfInBounds i (op.apply H (st.m.segAt i)), count := st.m.count },
+          pend := st.pend.set t (st.pend.getD t 0 - (((op.apply H (st.m.segAt i)).size : Int) - ((st.m.segAt i).size : Int))) }
+  | flush (st : CSt V) (t : Nat) : t < st.pend.length →
+      IStep H st { m := { st.m with count := st.m.count - st.pend.getD t 0 }, pend := st.pend.set t 0 }
+
+inductive IReach (H : Hashes) : CSt V → CSt V → Prop
+  | refl (s : CSt V) : IReach H s s
+  | step {s t u : CSt V} : IReach H s t → IStep H t u → IReach H s u
+
+/-- structure of every segment, and `counter + not yet subtracted = stored entries` -/
+structure IInv (H : Hashes) (st : CSt V) : Prop where
+  struct : SegInv H { st.m with count := total st.m }
+  acct : st.m.count = total st.m + st.pend.sum
+
+theorem int_sum_set (l : List Int) (t : Nat) (x : Int) (h : t < l.length) :
+    (l.set t x).sum = l.sum - l.getD t 0 + x := by
+  induction l generalizing t with
+  | nil => simp at h
+  | cons a r ih =>
+    cases t with
+    | zero => simp; omega
+    | succ t =>
+      simp only [List.set_cons_succ, List.sum_cons, List.getD_cons_succ]
+      rw [ih t (by simpa using h)]
+      omega
+
+theorem total_count_irrel (m : SegMap V) (c : Int) : total { m with count := c } = total m := rfl
+
+theorem istep_inv {H : Hashes} (hH : HashOk H) {s u : CSt V} (inv : IInv H s) (h : IStep H s u) : IInv H u := by
+  have hsegAt : ∀ j, SegMap.segAt { s.m with count := total s.m } j = s.m.segAt j := fun _ => rfl
+  have upd : ∀ (i : Nat) (op : SegOp V) (c : Int), i < s.m.segs.size → op.home H s.m.segs.size i →
+      SegInv H { segs := s.m.segs.setIfInBounds i (op.apply H (s.m.segAt i)),
+                 count := total s.m - ((s.m.segAt i).size : Int) + ((op.apply H (s.m.segAt i)).size : Int) } ∧
+      total ({ segs := s.m.segs.setIfInBounds i (op.apply H (s.m.segAt i)), count := c } : SegMap V) =
+        total s.m - ((s.m.segAt i).size : Int) + ((op.apply H (s.m.segAt i)).size : Int) := by
+    intro i op c hi hhome
+    obtain ⟨o1, o2⟩ := segop_spec hH (inv.struct.segs i hi) op
+    refine ⟨?_, total_set s.m i _ c hi⟩
+    apply seginv_set inv.struct i hi _ _ o1
+    · intro k hk
+      rcases o2 k hk with h' | h'
+      · exact inv.struct.home i hi k h'
+      · cases op with
+        | put k' v => simp only at h'; rw [h']; exact hhome
+        | pine k' v => simp only at h'; rw [h']; exact hhome
+        | del _ => exact absurd h' id
+        | evict _ _ _ => exact absurd h' id
+        | clear => exact absurd h' id
+    · rfl
+  cases h with
+  | secAdd i op hi hhome =>
+    obtain ⟨u1, u2⟩ := upd i op (s.m.count + (((op.apply H (s.m.segAt i)).size : Int) - ((s.m.segAt i).size : Int))) hi hhome
+    refine ⟨?_, ?_⟩
+    · show SegInv H { segs := _, count := total _ }
+      rw [u2]; exact u1
+    · show s.m.count + _ = total _ + s.pend.sum
+      rw [u2, inv.acct]; omega
+  | secDefer t i op hi hhome ht =>
+    obtain ⟨u1, u2⟩ := upd i op s.m.count hi hhome
+    refine ⟨?_, ?_⟩
+    · show SegInv H { segs := _, count := total _ }
+      rw [u2]; exact u1
+    · show s.m.count = total _ + (s.pend.set t _).sum
+      rw [u2, int_sum_set _ _ _ ht, inv.acct]; omega
+  | flush t ht =>
+    refine ⟨inv.struct, ?_⟩
+    show s.m.count - s.pend.getD t 0 = total s.m + (s.pend.set t 0).sum
+    rw [int_sum_set _ _ _ ht, inv.acct]; omega
+
+theorem ireach_inv {H : Hashes} (hH : HashOk H) {s u : CSt V} (inv : IInv H s) (h : IReach H s u) : IInv H u := by
+  induction h with
+  | refl => exact inv
+  | step _ st ih => exact istep_inv hH ih st
+
+theorem sum_all_zero (l : List Int) (h : ∀ t, l.getD t 0 = 0) : l.sum = 0 := by
+  induction l with
+  | nil => rfl
+  | cons a r ih =>
+    have h0 := h 0
+    simp only [List.getD_cons_zero] at h0
+    rw [List.sum_cons, h0, ih (fun t => by simpa using h (t + 1))]; rfl
+
+/-- quiescent states of the interleaved system: the counter is exact -/
+theorem ireach_quiescent {H : Hashes} (hH : HashOk H) {m0 : SegMap V} (inv0 : SegInv H m0) (threads : Nat)
+    {st : CSt V} (h : IReach H ⟨m0, List.replicate threads 0⟩ st) (hq : ∀ t, st.pend.getD t 0 = 0) :
+    SegInv H st.m ∧ st.m.len = (st.m.reachable : Int) := by
+  have i0 : IInv H (⟨m0, List.replicate threads 0⟩ : CSt V) := by
+    refine ⟨?_, ?_⟩
+    · show SegInv H { m0 with count := total m0 }
+      rw [← inv0.count]; exact inv0
+    · show m0.count = total m0 + (List.replicate threads (0 : Int)).sum
+      rw [inv0.count]
+      have : (List.replicate threads (0 : Int)).sum = 0 := by
+        apply sum_all_zero; intro t; simp [List.getD_eq_getElem?_getD, List.getElem?_replicate]; split <;> rfl
+      omega
+  have inv := ireach_inv hH i0 h
+  have hc : st.m.count = total st.m := by rw [inv.acct, sum_all_zero _ hq]; omega
+  have hs : SegInv H st.m := by
+    have := inv.struct
+    rw [← hc] at this
+    exact this
+  exact ⟨hs, len_eq_reachable hs⟩
+
+/-- `Set` is one lock-atomic section of the interleaved system -/
+theorem set_is_step {H : Hashes} (hH : HashOk H) {m : SegMap V} (inv : SegInv H m) (k : Nat) (v : V)
+    (pend : List Int) : IStep H ⟨m, pend⟩ ⟨m.set H k v, pend⟩ := by
+  have hi := segOf_lt hH inv k
+  obtain ⟨_, _, p3⟩ := put_spec hH.idx (inv.segs _ hi) k v
+  have h := IStep.secAdd (H := H) ⟨m, pend⟩ (SegMap.segOf H m k) (SegOp.put k v) hi rfl
+  refine cast ?_ h
+  congr 2
+  unfold SegMap.set SegOp.apply UMap.len
+  simp only
+  rw [p3]
+  congr 1
+  split <;> split <;> omega
+
+/-- `Del` is one lock-atomic section -/
+theorem del_is_step {H : Hashes} (hH : HashOk H) {m : SegMap V} (inv : SegInv H m) (k : Nat)
+    (pend : List Int) : IStep H ⟨m, pend⟩ ⟨(m.del H k).1, pend⟩ := by
+  have hi := segOf_lt hH inv k
+  obtain ⟨_, _, p3, p4⟩ := del_spec hH.idx (inv.segs _ hi) k
+  have h := IStep.secAdd (H := H) ⟨m, pend⟩ (SegMap.segOf H m k) (SegOp.del k) hi trivial
+  refine cast ?_ h
+  congr 2
+  unfold SegMap.del SegOp.apply
+  simp only
+  rw [p3]
+  congr 1
+  split at p4 <;> simp_all <;> omega
+
+/-- one spill eviction of `SetWithCap` (evict under the neighbour's lock,
+`count.Add(-d)` after the unlock) is a deferred section followed by its flush -/
+theorem spill_is_two_steps {H : Hashes} (hH : HashOk H) {m : SegMap V} (inv : SegInv H m) (j offset n skip t : Nat)
+    (hj : j < m.segs.size) (pend : List Int) (ht : t < pend.length) (h0 : pend.getD t 0 = 0) :
+    ∃ mid, IStep H ⟨m, pend⟩ mid ∧ IStep H mid ⟨evictSeg H m j offset n skip, pend⟩ := by
+  obtain ⟨_, _, e3, _, _⟩ := evict_spec hH.idx (inv.segs j hj) offset n skip
+  refine ⟨_, IStep.secDefer ⟨m, pend⟩ t j (SegOp.evict offset n skip) hj trivial ht, ?_⟩
+  have hf := IStep.flush (H := H) (V := V)
+    ⟨{ segs := m.segs.setIfInBounds j ((SegOp.evict offset n skip).apply H (m.segAt j)), count := m.count },
+     pend.set t (pend.getD t 0 - ((((SegOp.evict offset n skip).apply H (m.segAt j)).size : Int) - ((m.segAt j).size : Int)))⟩
+    t (by simpa using ht)
+  refine cast ?_ hf
+  have hg : (pend.set t (pend.getD t 0 - ((((SegOp.evict offset n skip).apply H (m.segAt j)).size : Int) - ((m.segAt j).size : Int)))).getD t 0 =
+      pend.getD t 0 - ((((SegOp.evict offset n skip).apply H (m.segAt j)).size : Int) - ((m.segAt j).size : Int)) := by
+    rw [List.getD_eq_getElem?_getD, List.getElem?_set]
+    simp [ht]
+  have hset : (pend.set t (pend.getD t 0 - ((((SegOp.evict offset n skip).apply H (m.segAt j)).size : Int) - ((m.segAt j).size : Int)))).set t 0 = pend := by
+    rw [List.set_set]
+    apply List.ext_getElem?
+    intro i
+    rw [List.getElem?_set]
+    split
+    · rename_i h; subst h
+      rw [List.getD_eq_getElem?_getD] at h0
+      cases hp : pend[t]? with
+      | none => have := List.getElem?_eq_none_iff.mp hp; omega
+      | some x =>
+        rw [hp] at h0; simp only [Option.getD_some] at h0
+        rw [h0]
+    · rfl
+  rw [hset, hg, h0]
+  congr 2
+  unfold evictSeg SegOp.apply
+  simp only
+  congr 1
+  omega
 
 /-! ### the real mixers are admissible instances -/
 
